@@ -106,9 +106,9 @@ func runC05(c *core.Ctx) {
 	} else if !c.Quick() {
 		c.Inconclusive("go1.26.8-build", "second toolchain build not available")
 	}
-	n := c.N(100, 1500)
-	reps := c.N(40, 200)
-	fresh := c.N(4, 24)
+	n := c.N(100, 800)
+	reps := c.N(40, 150)
+	fresh := c.N(4, 12)
 	core.ParallelFor(n, c.Procs, func(wk, i int) {
 		srv := pool.Servers[wk]
 		r := c.Rng("world", i)
